@@ -29,7 +29,8 @@ AccountsExtra == <<
   P0("misc"), P0("misc:my wallet:sub"), P0("misc:my wallet2"), P0("INCOME:bonus"), P0("liabilities:card"),
   P0("revenues:sales"), P0("assetsx:foo"), P0("кошелёк:a"), P("reserve:fund😀", 1), P("reserve:fund😀:x", 1),
   P0("reserve:fund"), P0("reserve"),
-  P0("misc:reserve"), P0("Misc:Reserve") >>      \* 25, 26: one name in two letter cases (ranking ties, case-exact indexes)
+  P0("misc:reserve"), P0("Misc:Reserve"),
+  P0("wallet:fees") >>                               \* 27: its first segment is the last WORD of the parent "misc:my wallet"      \* 25, 26: one name in two letter cases (ranking ties, case-exact indexes)
 
 (* commodities: sym = the symbol the parser should report, txt = how it is written *)
 Commodities == <<
